@@ -261,4 +261,56 @@ theorem C09_roundtrip (fmt : Fmt) (c0 : Option (List ChnaEntry)) (a0 b0 : Option
     rw [hpl12] at hfin
     simp only [readFile, hhead, hw, hfin]
 
+/-! ### reading the statement in the property's terms -/
+
+/-- a chunk given to the constructor (and not touched afterwards) comes back as given, empty = absent -/
+theorem effMeta_open (v : Option Bytes) : effMeta v v = if truthy v then v else none := by
+  unfold effMeta; split <;> rfl
+
+/-- a chunk set only before `close` comes back as set, empty = absent -/
+theorem effMeta_late (v : Option Bytes) : effMeta none v = if truthy v then v else none := by
+  simp [effMeta, truthy]
+
+theorem effChna_open (c : Option (List ChnaEntry)) : effChna c c = c := by unfold effChna; split <;> rfl
+theorem effChna_late (c : Option (List ChnaEntry)) : effChna none c = c := by simp [effChna]
+
+/-! ### non-vacuity: concrete inputs satisfy the hypotheses, and the model computes on them -/
+
+deriving instance DecidableEq for Except
+instance (e : ChnaEntry) : Decidable e.OK := by unfold ChnaEntry.OK; infer_instance
+
+/-- 24 bit, 3 channels: one frame is 9 bytes, an odd data chunk -/
+def exFmt : Fmt := ⟨3, 48000, 24⟩
+def exAxml : Bytes := [60, 97, 62]                 -- odd length
+def exBext : Bytes := [1, 2, 3, 4, 5]              -- odd length
+def exData : Bytes := [1, 2, 3, 4, 5, 6, 7, 8, 9]
+/-- `AudioID(1, "ATU_00000001", "AC_00010001", "AP_00010001")` (a v2 channel-format reference) -/
+def exEntry : ChnaEntry :=
+  ⟨1, [65,84,85,95,48,48,48,48,48,48,48,49, 65,67,95,48,48,48,49,48,48,48,49,95,48,48,
+       65,80,95,48,48,48,49,48,48,48,49, 0]⟩
+
+example : FmtOK exFmt := ⟨by decide, by decide, by decide, by decide, by decide, by decide, by decide⟩
+example : ChnaOK (some [exEntry]) := ⟨by decide, by simp; decide⟩
+example : BytesOK (some exAxml) ∧ BytesOK (some exBext) :=
+  ⟨by show exAxml.length < 2 ^ 32; decide, by show exBext.length < 2 ^ 32; decide⟩
+example : exData.length % exFmt.blockAlign = 0 := by decide
+
+set_option maxRecDepth 100000 in
+/-- forced BW64, odd axml at open, odd bext set late, odd data -/
+example : readFile (closedFile exFmt none (some exAxml) none true [.write exData, .setBext (some exBext)])
+    = .ok (⟨idBW64, ⟨1, 3, 48000, 24⟩, 1, exData, none, some exAxml, some exBext⟩, []) := by decide +kernel
+
+set_option maxRecDepth 100000 in
+/-- plain RIFF, chna set late, bext at open, axml late, data written in three calls (one empty) -/
+example : readFile (closedFile exFmt none none (some exBext) false
+      [.write [1, 2, 3], .setChna (some [exEntry]), .write [], .setAxml (some exAxml), .write [4, 5, 6, 7, 8, 9]])
+    = .ok (⟨idRIFF, ⟨1, 3, 48000, 24⟩, 1, exData, some [exEntry], some exAxml, some exBext⟩, []) := by decide +kernel
+
+set_option maxRecDepth 100000 in
+/-- the file of the previous example is 168 bytes: header 12, JUNK 36, fmt 24, bext 8+5+1, data 8+9+1,
+chna 8+44, axml 8+3+1; an empty `b''` value is not written at all -/
+example : (closedFile exFmt none none (some exBext) false
+      [.write [1, 2, 3], .setChna (some [exEntry]), .write [], .setAxml (some exAxml), .write [4, 5, 6, 7, 8, 9]]).length = 168
+    ∧ closedFile exFmt none (some []) none false [] = closedFile exFmt none none none false [] := by decide +kernel
+
 end Earverif.Bw64
